@@ -142,7 +142,7 @@ def expected_result_type(ResultType, v):
     return None
 
 
-EXC_KINDS = ["ValueError", "KeyError", "ZeroDivisionError", "LocalOnly", "NonMemoized", "FnLocal", "Nested"]
+EXC_KINDS = ["ValueError", "KeyError", "ZeroDivisionError", "LocalOnly", "NonMemoized", "FnLocal", "Nested", "Decorated"]
 
 
 def run(tier, seed):
@@ -313,13 +313,14 @@ def run(tier, seed):
                     outs.append(("returned", None, None))
                 except Exception as e:
                     outs.append(("raised", type(e), str(e)))
+                    last_exc = e
             n = len(r.trace.execs())
             if any(o[0] != "raised" for o in outs):
                 rep.violation("C02:exception-lost:%s" % cls, "a raising call returned normally: %r" % (outs,), meta)
                 continue
             (_, t1, m1), (_, t2, m2) = outs
             # the first call is an execution of the body: the caller sees the body's own exception (class and message)
-            own = {"LocalOnly": "LocalOnlyError", "FnLocal": "FnLocalError", "Nested": "NestedError", "NonMemoized": "NonMemoizedException"}.get(cls, cls)
+            own = {"LocalOnly": "LocalOnlyError", "FnLocal": "FnLocalError", "Nested": "NestedError", "NonMemoized": "NonMemoizedException", "Decorated": "DecoratedError"}.get(cls, cls)
             if t1.__name__ not in (own, "OSError" if own == "IOError" else own) or ("msg-%d" % ei) not in m1:
                 rep.violation("C02:first-call-exception-differs:%s" % cls, "the body raised %s('msg-%d'...); the first (computing) call raised %s: %r" % (own, ei, t1.__name__, m1[:80]), meta)
             if cls == "NonMemoized":
@@ -335,6 +336,9 @@ def run(tier, seed):
                 rep.violation("C02:replayed-exception-class:%s" % cls, "an exception that cannot be rebuilt from its message was replayed as %s, not as the memoized-exception type" % t2.__name__, meta)
             if ("msg-%d" % ei) not in m2:
                 rep.violation("C02:replayed-exception-message:%s" % cls, "original message lost: %r" % m2, meta)
+            elif not rebuildable and m1 not in (getattr(last_exc, "message", None) or m2.split(". Original stack trace")[0]):
+                # the memoized-exception type carries the original exception's text (what str() of it gave), not a part of it
+                rep.violation("C02:replayed-exception-message:%s" % cls, "the body's exception read %r; the replayed one carries the message %r" % (m1, (getattr(last_exc, "message", None) or m2)[:160]), meta)
             mm = fnmod.n0.memento(spec)
             if mm is None or mm.invocation_metadata.result_type != ResultType.exception:
                 rep.violation("C02:exception-result-type", "memento %r" % (mm,), meta)
